@@ -35,6 +35,10 @@ func sqlC14(args []string) error {
 		}
 		s.stats()
 		s.scan(t)
+		if sc%3 == 0 { // joins whose build side spills over several temporary pages
+			s.bigJoin(rng, t, fmt.Sprintf("pb%d", sc))
+			s.scan(t)
+		}
 		nc := len(t.cols)
 		for round := 0; round < 12 && !s.dead; round++ {
 			switch rng.Intn(4) {
